@@ -19,9 +19,11 @@ COMMON_NOTE = ("Trusted: Lean 4.33.0 kernel, axioms propext/Classical.choice/Quo
                "Go runtime/stdlib semantics are modelled, not verified.")
 
 
-def generic(pid, corrs, extra=None, thorough_extra=None, skel=None, pregen=None):
+def generic(pid, corrs, extra=None, thorough_extra=None, skel=None, pregen=None, yield_search=None):
     """corrs: list of dicts(harness=, area=, name=, gen_args=, run_args=, env=, race=) for steps.TraceCorr.
     extra(work, res, tier, proofs_ok): property-specific additional steps (record violations on res).
+    yield_search: list of corr dicts to re-run with schedule fuzzing (yield-instrumented copy) when an obligation
+          broke and no concrete failing input was found yet; defaults to `corrs` when skel is given (concurrency).
     skel: list of "file.go[:Type,...]" — sync skeletons regenerated from the current tree into
           lean/Ekit/Generated/Skel<pid>.lean (namespace Ekit.Gen.Skel<pid>) before the Lean build.
     pregen(work) -> error string or None: other regeneration from the source (fact tables …)."""
@@ -63,6 +65,25 @@ def generic(pid, corrs, extra=None, thorough_extra=None, skel=None, pregen=None)
             extra(work, res, tier, ok)
             if any(v[1] for v in res.violations[before:]):
                 concrete = True
+        # search phase for concurrency properties: something broke (proof / skeleton / model correspondence) but the
+        # plain stress run produced no concrete failing input -> schedule fuzzing on the instrumented copy
+        ys = yield_search if yield_search is not None else (corrs if skel else [])
+        broke = (not ok) or getattr(res, "broken_proof", None) or any(not v[1] for v in res.violations)
+        if os.environ.get("VERIF_FORCE_YIELD"):      # testing aid: run the schedule-fuzzing passes on a healthy tree too
+            broke = True
+        if ys and broke and not concrete:
+            for permille in (30, 150):
+                for c in ys:
+                    if c.get("race"):
+                        continue
+                    c2 = dict(c, name=(c.get("name") or c["harness"]) + "-yield%d" % permille, yielding=permille, spec_only=True)
+                    before = len(res.violations)
+                    steps.TraceCorr(work, res, pid, tier=tier, **c2).run(proofs_ok=True)
+                    if any(v[1] for v in res.violations[before:]):
+                        concrete = True
+                        break
+                if concrete:
+                    break
         if not ok or getattr(res, "broken_proof", None):
             steps.report_broken_proof(res, concrete)
         if tier == "thorough":
@@ -73,6 +94,13 @@ def generic(pid, corrs, extra=None, thorough_extra=None, skel=None, pregen=None)
                               concrete=False)
             if thorough_extra:
                 thorough_extra(work, res)
+            # thorough tier: the same correspondences under schedule fuzzing (more interleavings explored on the
+            # unchanged tree too; any spec rejection there would be a genuine counter-example)
+            ys = yield_search if yield_search is not None else (corrs if skel else [])
+            for c in ys:
+                if not c.get("race"):
+                    c2 = dict(c, name=(c.get("name") or c["harness"]) + "-yield60", yielding=60, spec_only=True)
+                    steps.TraceCorr(work, res, pid, tier="quick", **c2).run(proofs_ok=True)
     run.pregen = do_pregen
     return run
 
